@@ -36,4 +36,13 @@ PROPS = {
         "assumptions": ["kernel pipe buffering only chooses the chunking, over which the theorem quantifies",
                         "exit status / ordering / Output() / cancellation kind are observed on real child processes (monitors), the Lean part covers the order skeleton"],
     },
+    "C11": {
+        "areas": ["Errors"],
+        "harness": "err",
+        "verdict_findings": {"C11_verdict_reason": "reason-duplicated-when-wrapping-a-wrapped-error"},
+        "trusted_base": ["Model.Err (constructors, Any/errors.Is on %w chains, single-error (de)serialisation) validated differentially on every run",
+                         "gofacts' extraction of the sentinel table, the deserialiseCommonError case list, CorrespondTo and IsCommonError (fails closed)",
+                         "ASCII model of strings.ToLower/TrimSpace (harness keeps non-ASCII runes caseless and non-blank)"],
+        "assumptions": ["joined errors and multi-line messages are covered by monitors on the real code only (not in the Lean model)"],
+    },
 }
